@@ -36,6 +36,9 @@ def setup(J):
         # while the driver runs (streams longer than the buffer)
         for i in (2, 3):
             jobs.append(J.with_delay_fallback(J.wf("C16", "g7c", i, 1, 2, "func", oracles=["nohang", "clean", "c04", "c05"], tier=tier, events_dep=False, id=f"C16-dangling-g7c-i{i}")))
+        # RunTo keeps ONE consumer of a fan-out: the connection to the other must be cut (stream longer than the buffer)
+        for t in ("q", "r"):
+            jobs.append(J.with_delay_fallback(J.wf("C16", "g4", 3, 1, 2, "func", oracles=["nohang", "clean", "c04", "c05", "c16-runto"], tier=tier, events_dep=False, runto=[t], runtohow="name", budget=20, id=f"C16-runto-g4-i3-{t}-beyond-buffer")))
         # a dead-end PARAMETER out-port whose owner also feeds the process that ends the (dead-end) file stream:
         # both dead ends must be drained at the same time (streams longer than the buffers)
         for i in ((2, 3) if q else (2, 3, 4)):
